@@ -125,7 +125,28 @@ pub fn mutants(p: &Program) -> Vec<Mutant> {
         let tail = &root[b + 1..];
         if vars.starts_with('$') && a < root.find('{').unwrap_or(0) {
             out.push(("unused-variable".into(), "extra variable declared".into(), with_root(format!("{head}({vars}, $unused: Int){tail}"))));
-            let list: Vec<&str> = vars.split(", ").collect();
+            // split at top-level commas only (default values may be objects)
+            let list: Vec<&str> = {
+                let (mut out, mut depth, mut in_str, mut start) = (vec![], 0i32, false, 0usize);
+                let b = vars.as_bytes();
+                let mut i = 0;
+                while i < b.len() {
+                    match b[i] {
+                        b'\\' if in_str => i += 1,
+                        b'"' => in_str = !in_str,
+                        b'{' | b'[' if !in_str => depth += 1,
+                        b'}' | b']' if !in_str => depth -= 1,
+                        b',' if !in_str && depth == 0 => {
+                            out.push(vars[start..i].trim());
+                            start = i + 1;
+                        }
+                        _ => {}
+                    }
+                    i += 1;
+                }
+                out.push(vars[start..].trim());
+                out
+            };
             for (i, v) in list.iter().enumerate() {
                 let rest: Vec<&str> = list.iter().enumerate().filter(|(j, _)| *j != i).map(|(_, x)| *x).collect();
                 let decl = if rest.is_empty() { String::new() } else { format!("({})", rest.join(", ")) };
